@@ -5,7 +5,7 @@ import os
 
 from .routing import TYPES, cargo_shard, rename_crate
 
-PAYLOAD = {"raw": [("payload", "Binary")], "t1": [("p1", "u32")], "t2": [("p1", "u32"), ("p2", "String")],
+PAYLOAD = {"raw": [("payload", "Binary")], "bin": [("payload", "Binary")], "t1": [("p1", "u32")], "t2": [("p1", "u32"), ("p2", "String")],
            "t3": [("p1", "u32"), ("p2", "String"), ("p3", "Nested")]}
 DATA_TY = {"plain": "Nested", "opt": "Option<Nested>", "raw": "Binary", "rawopt": "Option<Binary>",
            "inst": "MsgInstantiateContractResponse", "instopt": "Option<MsgInstantiateContractResponse>"}
